@@ -157,6 +157,86 @@ func loadCPIX(cfgFile string) (map[string]*cpixPkg, error) {
 	return out, nil
 }
 
+// writeGenDrmConfig writes a DRM configuration with generated CPIX packages and returns its path.
+func writeGenDrmConfig(dir string, seed int64) (string, error) {
+	if err := os.MkdirAll(dir, 0o755); err != nil {
+		return "", err
+	}
+	rng := rand.New(rand.NewSource(seed*7919 + 17))
+	rb := func(n int) []byte {
+		b := make([]byte, n)
+		for i := range b {
+			b[i] = byte(rng.Intn(256))
+		}
+		return b
+	}
+	type gk struct {
+		kid, key, iv []byte
+		scheme, typ  string
+	}
+	type gp struct {
+		name string
+		keys []gk
+		swap bool // usage rules listed audio first
+	}
+	var pkgs []gp
+	for _, scheme := range []string{"cbcs", "cenc"} {
+		for _, ivn := range []int{16, 0, 8} {
+			pkgs = append(pkgs, gp{name: fmt.Sprintf("gen-1key-%s-iv%d", scheme, ivn), keys: []gk{{rb(16), rb(16), rb(ivn), scheme, ""}}})
+			pkgs = append(pkgs, gp{name: fmt.Sprintf("gen-2keys-%s-iv%d", scheme, ivn), swap: ivn == 0,
+				keys: []gk{{rb(16), rb(16), rb(ivn), scheme, "VIDEO"}, {rb(16), rb(16), rb(ivn), scheme, "AUDIO"}}})
+		}
+		// explicitIV on one track type only
+		pkgs = append(pkgs, gp{name: "gen-2keys-" + scheme + "-iv-video-only", keys: []gk{{rb(16), rb(16), rb(16), scheme, "VIDEO"}, {rb(16), rb(16), nil, scheme, "AUDIO"}}})
+	}
+	// one scheme per track type
+	pkgs = append(pkgs, gp{name: "gen-2keys-video-cbcs-audio-cenc", swap: true, keys: []gk{{rb(16), rb(16), rb(16), "cbcs", "VIDEO"}, {rb(16), rb(16), rb(16), "cenc", "AUDIO"}}})
+	type jp struct {
+		Name     string              `json:"name"`
+		Desc     string              `json:"desc"`
+		CPIXFile string              `json:"cpixFile"`
+		URLs     map[string]struct{} `json:"licenseURLs"`
+	}
+	var cfg struct {
+		Version  string `json:"version"`
+		Packages []jp   `json:"packages"`
+	}
+	cfg.Version = "0.5"
+	uuid := func(b []byte) string { return uuidStr(b) }
+	for _, p := range pkgs {
+		var sb strings.Builder
+		sb.WriteString(`<?xml version="1.0" encoding="utf-8"?>` + "\n")
+		sb.WriteString(`<cpix:CPIX xmlns:cpix="urn:dashif:org:cpix" xmlns:pskc="urn:ietf:params:xml:ns:keyprov:pskc" contentId="` + p.name + `" version="2.3">` + "\n <cpix:ContentKeyList>\n")
+		for _, k := range p.keys {
+			iv := ""
+			if len(k.iv) > 0 {
+				iv = ` explicitIV="` + base64.StdEncoding.EncodeToString(k.iv) + `"`
+			}
+			fmt.Fprintf(&sb, "  <cpix:ContentKey%s kid=\"%s\" commonEncryptionScheme=\"%s\">\n   <cpix:Data><pskc:Secret><pskc:PlainValue>%s</pskc:PlainValue></pskc:Secret></cpix:Data>\n  </cpix:ContentKey>\n",
+				iv, uuid(k.kid), k.scheme, base64.StdEncoding.EncodeToString(k.key))
+		}
+		sb.WriteString(" </cpix:ContentKeyList>\n <cpix:ContentKeyUsageRuleList>\n")
+		ks := p.keys
+		if p.swap && len(ks) == 2 {
+			ks = []gk{ks[1], ks[0]}
+		}
+		for _, k := range ks {
+			if k.typ != "" {
+				fmt.Fprintf(&sb, "  <cpix:ContentKeyUsageRule kid=\"%s\" intendedTrackType=\"%s\"></cpix:ContentKeyUsageRule>\n", uuid(k.kid), k.typ)
+			}
+		}
+		sb.WriteString(" </cpix:ContentKeyUsageRuleList>\n</cpix:CPIX>\n")
+		file := p.name + ".xml"
+		if err := os.WriteFile(filepath.Join(dir, file), []byte(sb.String()), 0o644); err != nil {
+			return "", err
+		}
+		cfg.Packages = append(cfg.Packages, jp{Name: p.name, Desc: "generated", CPIXFile: file, URLs: map[string]struct{}{}})
+	}
+	raw, _ := json.MarshalIndent(cfg, "", " ")
+	path := filepath.Join(dir, "drm_config_gen.json")
+	return path, os.WriteFile(path, raw, 0o644)
+}
+
 // ---------------------------------------------------------------- environment
 
 type env struct {
@@ -167,6 +247,7 @@ type env struct {
 	// afterwards (representations restored from the stored metadata)
 	servers map[string]*lib.Livesim
 	notes   []string
+	genPkgs []string     // names of the generated CPIX packages (served by the "gen-drm" instance only)
 	pre     *lib.Livesim // scratch vodroot with the pre-encrypted asset
 	preErr  string
 	assets  map[string]*lib.TLAsset
@@ -174,7 +255,7 @@ type env struct {
 	segDur  map[string]int64
 }
 
-func newEnv(scratch string) (*env, error) {
+func newEnv(scratch string, seed int64) (*env, error) {
 	dcfg, err := drm.ReadDrmConfig(drmCfgFile)
 	if err != nil {
 		return nil, fmt.Errorf("drm config: %w", err)
@@ -215,6 +296,29 @@ func newEnv(scratch string) (*env, error) {
 	}
 	if e.cpix, err = loadCPIX(drmCfgFile); err != nil {
 		return nil, err
+	}
+	// generated DRM configuration: CPIX packages beyond the bundled ones (explicitIV present or
+	// absent - the attribute is optional -, cenc/cbcs, one key / one key per track type, rules in
+	// either order, 8- and 16-byte IVs), served by an instance of its own
+	genCfg, err := writeGenDrmConfig(filepath.Join(scratch, "drmgen"), seed)
+	if err != nil {
+		return nil, fmt.Errorf("generated drm config: %w", err)
+	}
+	if gcfg, err := drm.ReadDrmConfig(genCfg); err != nil {
+		e.notes = append(e.notes, "generated DRM configuration refused by pkg/drm: "+err.Error())
+	} else if gs, err := lib.NewLivesim(lib.TestVodRoot, func(cfg *app.ServerConfig) { cfg.DrmCfg, cfg.DrmCfgFile = gcfg, genCfg }); err != nil {
+		e.notes = append(e.notes, "server with the generated DRM configuration: "+err.Error())
+	} else {
+		e.servers["gen-drm"] = gs
+		gp, err := loadCPIX(genCfg)
+		if err != nil {
+			return nil, err
+		}
+		for n, pk := range gp {
+			e.cpix[n] = pk
+			e.genPkgs = append(e.genPkgs, n)
+		}
+		sort.Strings(e.genPkgs)
 	}
 	// pre-encrypted copy of testpic_2s
 	if err := buildPreEncrypted(filepath.Join(lib.TestVodRoot, "testpic_2s"), filepath.Join(scratch, "vod", "testpic_2s_pre")); err != nil {
@@ -883,7 +987,7 @@ func (e *env) segTerm(i int, in c10in, o segObs) string {
 	if o.LAKid != "" || o.LAKey != "" {
 		la = append(la, fmt.Sprintf("(%s, %s)", zb([]byte(o.LAKid)), zb([]byte(o.LAKey))))
 	}
-	return fmt.Sprintf("CSeg %d %s %s %s %d (%s, %d) (%s, %d) %s %s [%s]", i, e.modeTerm(in.DRM), zb([]byte(filepath.Base(in.Asset))), zb([]byte(o.LaURL)),
+	return fmt.Sprintf("CSeg %d %s %s %s %d (%s, %d) (%s, %d) %s %s [%s] "+lib.Cbool(o.EncStatus == 200), i, e.modeTerm(in.DRM), zb([]byte(filepath.Base(in.Asset))), zb([]byte(o.LaURL)),
 		ctypeCode(in.CType), zb(unhexKid(o.MPDKid)), schemeCode(o.MPDScheme), zb(unhexKid(o.InitKid)), schemeCode(o.InitSchm), zb(o.Key), zb(o.InitIV), strings.Join(la, "; "))
 }
 
@@ -903,6 +1007,12 @@ func oracleSeg(c *lib.Ctx, id string, in c10in, o segObs) {
 	}
 	if o.Err != "" {
 		fail("unparsable", o.Err)
+		return
+	}
+	if in.Server == "gen-drm" && o.ClearStatus == 200 && (o.EncStatus >= 400 || o.InitStatus >= 400 || o.MPDStatus >= 400) {
+		// a package the server cannot use (e.g. no explicitIV): refusing is acceptable - nothing
+		// undecryptable is served
+		c.Count(fmt.Sprintf("generated-package-refused:mpd=%d,init=%d,segment=%d", o.MPDStatus, o.InitStatus, o.EncStatus))
 		return
 	}
 	if o.MPDStatus != 200 || o.InitStatus != 200 || o.EncStatus != 200 || o.ClearStatus != 200 {
@@ -1138,7 +1248,9 @@ func (e *env) generate(rng *rand.Rand, c *lib.Ctx) []c10in {
 	drms := []string{"eccp_cenc", "eccp_cbcs"}
 	var pkgs []string
 	for n := range e.cpix {
-		pkgs = append(pkgs, n)
+		if !strings.HasPrefix(n, "gen-") {
+			pkgs = append(pkgs, n)
+		}
 	}
 	sort.Strings(pkgs)
 	for _, n := range pkgs {
@@ -1199,6 +1311,39 @@ func (e *env) generate(rng *rand.Rand, c *lib.Ctx) []c10in {
 								add("server:"+srv, in2)
 							}
 						}
+					}
+				}
+			}
+		}
+	}
+	// ---- generated CPIX packages (instance "gen-drm"): every served (init, segment) pair must decrypt
+	// with the package key to the clear segment, or the request is refused
+	if e.servers["gen-drm"] != nil {
+		genAssets := assets[:1]
+		if c.Thorough() {
+			genAssets = assets
+		}
+		for _, x := range genAssets {
+			a := e.assets[x.asset]
+			if a == nil {
+				continue
+			}
+			ref := a.Ref()
+			for _, n := range e.genPkgs {
+				for _, rp := range []struct{ id, ct string }{{x.vid, "video"}, {x.aud, "audio"}} {
+					if rp.id == "" || a.Rep(rp.id) == nil {
+						continue
+					}
+					for _, ch := range []bool{false, true} {
+						in := c10in{Kind: "seg", Asset: x.asset, Rep: rp.id, CType: rp.ct, DRM: "drm_" + n, Seg: 300 + rng.Int63n(1000), Chunked: ch, Mode: "number", Server: "gen-drm"}
+						if rp.ct == "audio" {
+							in.MPD = x.audMPD
+						}
+						in.NowMS = ref.LoopE(in.Seg)*1000/ref.Timescale + e.segDur[x.asset] + 1000 + rng.Int63n(20000)
+						if ch {
+							in.Ato = "1"
+						}
+						add("seg-generated-package:"+n, in)
 					}
 				}
 			}
@@ -1405,7 +1550,7 @@ func (e *env) generate(rng *rand.Rand, c *lib.Ctx) []c10in {
 }
 
 func runC10(c *lib.Ctx) error {
-	e, err := newEnv(c.Out)
+	e, err := newEnv(c.Out, c.Seed)
 	if err != nil {
 		return err
 	}
